@@ -935,6 +935,34 @@ def m_str_chars(I, args, fn, expr):
     raise Abort("chars() of symbolic string %r" % (s,))
 
 
+@model("core::str::<impl str>::split")
+def m_str_split(I, args, fn, expr):
+    """`text.split(pattern)` for a character, a string or a predicate over characters."""
+    s = strip(args[0])
+    if isinstance(s, StrB) and s.is_concrete():
+        s = s.text()
+    if not isinstance(s, str):
+        raise Abort("split() of symbolic string %r" % (s,))
+    pat = strip(args[1])
+    if isinstance(pat, Char):
+        parts = s.split(pat.c)
+    elif isinstance(pat, str) and pat:
+        parts = s.split(pat)
+    else:
+        parts, cur = [], ""
+        for ch in s:
+            hit = strip(I.call_value(pat, [Char(ch)]))
+            if hit is True:
+                parts.append(cur)
+                cur = ""
+            elif hit is False:
+                cur += ch
+            else:
+                raise Abort("split(): the predicate answers %r" % (hit,))
+        parts.append(cur)
+    return iter_of(I, RList(parts), by_ref=False)
+
+
 @model("regex::escape")
 def m_regex_escape(I, args, fn, expr):
     s = StrB()
